@@ -183,6 +183,10 @@ def h02a(c, mode="sim"):
             c.ob("accepted.sent-exactly-once", len(sent) == 1 and sent[0].package_type == kind and [o for o in sent[0]._orders] == [order])
             c.ob("accepted.in-flight-status", order.status == lc.TRANSIENT[kind])
             lc.blotter_coherence(c, market, list(market.blotter), tag="accepted.blotter")
+            if op == "place":
+                # forcing skips the controls and nothing else: the runner is charged with the trade like for any other placement
+                c.ob("accepted-new-order.runner-charged", after["rc_trades"] == before["rc_trades"] + [order.trade.id] and after["rc_live"] == before["rc_live"] + [order.trade.id]
+                     and after["rc_placed"] is not None and after["rc_invested"] is True, force=force)
 
 
 def h02a_betdaq(c):
@@ -351,6 +355,58 @@ def h02b(c, N=3):
         c.cover("batched")
 
 
+def h02d(c):
+    """per-call instruction limit inside ONE transaction that packages two kinds: one request of a first kind, then one more than the
+    exchange's limit of a second kind (real Transaction._create_order_package / chunks / package classes, simulation client = Betfair
+    limits): every package holds at most the limit of ITS kind, every request is delivered once, in order"""
+    with cm.config_set(simulated=True):
+        k1 = c.choose("first_kind", KINDS)
+        k2 = c.choose("second_kind", [k for k in KINDS if k != k1])
+        explicit = c.choose("execute_between", [False, True])
+        lim = {"place": order_limits["placeOrders"], "cancel": order_limits["cancelOrders"], "update": order_limits["updateOrders"], "replace": order_limits["replaceOrders"]}
+        n2 = lim[k2] + 1
+        fl, (client,), (strategy,) = cm.new_sim(strategy_kwargs=dict(max_live_trade_count=10**6, max_trade_count=10**6))
+        sent = []
+        fl.process_order_package = lambda p: sent.append(p)
+        market = cm.add_market(fl, cm.book([cm.runner(1), cm.runner(2)], version=7))
+        resting = []
+        for i in range(n2 + 1):
+            o = cm.mk_limit(strategy, "BACK", 2.0, 5.0)
+            cm.place_resting(fl, market, strategy, o, 1000 + i)
+            resting.append(o)
+        shadow = []
+
+        def req(t, kind, i):
+            if kind == "place":
+                o = cm.mk_limit(strategy, "BACK", 2.0, 5.0)
+                ok = t.place_order(o, force=True)
+            else:
+                o = resting[i]
+                ok = {"cancel": lambda: t.cancel_order(o, force=True), "update": lambda: t.update_order(o, "PERSIST", force=True),
+                      "replace": lambda: t.replace_order(o, 3.0, force=True)}[kind]()
+            if ok:
+                shadow.append((kind, o))
+
+        with c.guard("transaction"):
+            with market.transaction() as t:
+                req(t, k1, 0)
+                if explicit:
+                    t.execute()
+                for i in range(n2):
+                    req(t, k2, i + 1)
+        for p in sent:
+            kind = [k for k, v in PT.items() if v == p.package_type][0]
+            c.ob("package.within-the-limit-of-its-kind", len(p._orders) <= lim[kind], kind=kind, size=len(p._orders), limit=lim[kind])
+            c.ob("package.not-empty", len(p._orders) > 0)
+        got = [(p.package_type.value, id(o)) for p in sent for o in p._orders]
+        want = [(PT[k].value, id(o)) for k, o in shadow]
+        c.ob("every-request-delivered-exactly-once", sorted(got) == sorted(want), delivered=len(got), requested=len(want))
+        for kind in (k1, k2):
+            seq = [id(o) for p in sent if p.package_type == PT[kind] for o in p._orders]
+            c.ob("request-order-preserved", seq == [id(o) for k, o in shadow if k == kind])
+        c.cover("over-limit-batch")
+
+
 def h02c(c):
     """chunk arithmetic of utils.chunks at the real per-call limits with a sequence of symbolic length m in [0, 3L+2]:
     chunks are contiguous, cover [0, m), each holds 1..L elements"""
@@ -385,6 +441,7 @@ HARNESSES = [
     Harness("H02a-betdaq", h02a_betdaq, pattern="P2 inductive step", requires=["refused", "accepted"], outside=OUT, selfcheck=False),
     Harness("H02b", h02b, quick=dict(N=3), thorough=dict(N=4), pattern="P3 bounded history", requires=["batched", "explicit-execute", "several-packages", "rejected-inside-batch"], outside=OUT,
             max_paths=(300000, 3000000), wall_s=(300, 3000)),
+    Harness("H02d", h02d, pattern="exhaustive choice product at the real limits (structural)", requires=["over-limit-batch"], outside=OUT, selfcheck=False),
     Harness("H02c", h02c, pattern="P1 kernel (symbolic length)", requires=["chunks"], outside=OUT),
 ]
 META = {"assumptions": ["flumine.process_order_package is replaced by a recorder (what reaches the execution layer)"]}
